@@ -101,7 +101,7 @@ class Sess:
         # Peer._main uses 25 routes per iteration, or 1 when the neighbor has a rate limit
         for _ in range(limit):
             self.step(per_iteration)
-            if not self.new_routes and not self.peer.neighbor.rib.outgoing.pending() and not self.send_eor:
+            if not self.new_routes and not self.peer.neighbor.rib.outgoing.pending() and not self.send_eor and not self.peer.neighbor.eor:
                 return True
         return False
 
@@ -135,6 +135,8 @@ def apply(rib, op):
         rib.del_from_rib(_route(op[1], None))
     elif op[0] == 'resend':
         rib.resend(False)  # what `flush adj-rib out` (and a ROUTE-REFRESH from the peer) does
+    elif op[0] == 'eor':
+        pass  # `announce eor ipv4 unicast`: queued on the neighbor, not in the RIB (done by one_case, which has the peer)
     elif op[0] == 'clear':
         rib.withdraw()  # `clear adj-rib out`
 
@@ -162,6 +164,10 @@ def one_case(before_ops, cut, down_ops, per_iteration=25, after_ops=(), v6=False
         s.lose()
         for op in down_ops:
             apply(rib, op)
+            if op[0] == 'eor':
+                from exabgp.protocol.family import AFI, SAFI, Family
+
+                s.peer.neighbor.eor.append(Family(AFI.ipv4, SAFI.unicast))  # what Configuration.inject_eor does
         s.up()
         if not s.settle(per_iteration=per_iteration):
             return {'what': 'the new session never settles (updates keep being generated or End-of-RIB never sent)', 'input': inp}
@@ -197,7 +203,13 @@ def one_case(before_ops, cut, down_ops, per_iteration=25, after_ops=(), v6=False
     if want != intended:
         return {'what': 'the Adj-RIB-Out ExaBGP reports differs from the intended table', 'input': inp, 'intended': str(sorted(intended.items())), 'reported': str(sorted(want.items()))}
     fams = sorted((int(a), int(b)) for a, b in s.neg.families)
-    if sorted(s.table.eor) != fams:
+    manual = [(1, 1)] * sum(1 for op in down_ops if op[0] == 'eor')
+    if manual:
+        # an End-of-RIB the operator asked for while the session was down: one more marker of that family, and like the
+        # automatic ones it must not overtake the table it closes
+        if sorted(s.table.eor) != sorted(fams + manual):
+            return {'what': f'End-of-RIB markers {sorted(s.table.eor)}: expected one per negotiated family plus the {len(manual)} asked for through the API', 'input': inp}
+    elif sorted(s.table.eor) != fams:
         return {'what': f'End-of-RIB markers {sorted(s.table.eor)} do not cover the negotiated families {fams} exactly once', 'input': inp}
     # nothing happens after the re-establishment in these histories, so every UPDATE of the new session belongs to the
     # table transfer: none may follow the first End-of-RIB
@@ -225,6 +237,10 @@ def loss_at_every_cut(tier, seed):
         rnd.shuffle(cases)
         cases = cases[:400]
     work = [(before, cut, down, per) for before, cut, down in cases for per in (25, 1)]
+    # `announce eor` issued while down, with a table which takes several turns of the send loop
+    for down in ((('eor',),), (('ann', 2, 5), ('eor',)), (('eor',), ('ann', 2, 5))):
+        for per in (25, 1):
+            work.append(((('ann', 1, 20),), 2, down, per))
     # a route of another family than IPv4 unicast withdrawn while down (or changed, or left alone): the new session must
     # not start with an End-of-RIB -- an UPDATE which says nothing IS the End-of-RIB of IPv4 unicast
     for down in ((('wd', 3, None),), (('wd', 3, None), ('wd', 0, None)), (('ann', 3, 7),), (), (('wd', 3, None), ('ann', 3, 9))):
